@@ -13,7 +13,10 @@ RULE = ("two kinds of case: (utmi) the real UTMITranslator on a ULPI record, dri
         "acceptance delays, throttling, DIR-high episodes with RxCmds/receive packets between and during link "
         "activity; in three quarters of the cases 10-40 % of the transmit-command presentations are pre-empted by a "
         "receive that starts - mostly with DIR and NXT rising together - in one of the cycles in which the command is "
-        "still waiting for NXT), a UTMI transmitter reacting to tx_ready, per-case op_mode and other control settings "
+        "still waiting for NXT; in three quarters of the cases control-input blips at quiet moments: one control input "
+        "changes and goes back to its previous value 1-6 cycles later, i.e. mostly while the register write it caused is "
+        "still on the bus, and the UTMI transmitter starts a packet 0-8 cycles after that whatever the busy output says), "
+        "a UTMI transmitter reacting to tx_ready, per-case op_mode and other control settings "
         "(register writes at start-up and at quiet moments); (tx) the real ULPITransmitTranslator alone under "
         "unconstrained random inputs and packet-shaped inputs; monitor (utmi) cycle by cycle: tx_valid & tx_ready <=> the "
         "PHY-side bus observer accepted a byte from the link in that cycle (NOPID command excepted), not judged after the "
@@ -51,7 +54,8 @@ def utmi_params(rng, k):
          "tx_rate": rng.choice([20, 60, 200, 1000]), "max_len": rng.choice([4, 12, 40]),
          "nxt_delay": rng.choice([0, 1, 3, 9]), "throttle": rng.choice([0, 10, 50, 85]),
          "rx_rate": rng.choice([0, 5, 20, 60]), "abort_rate": rng.choice([0, 0, 0, 15]),
-         "tx_gap_min": rng.choice([1, 1, 2, 6]), "pend_abort": rng.choice([0, 10, 25, 40])}
+         "tx_gap_min": rng.choice([1, 1, 2, 6]), "pend_abort": rng.choice([0, 10, 25, 40]),
+         "blip_rate": rng.choice([0, 15, 40, 40])}
     ctrl0 = dict(U.DEFAULT_CTRL) if k % 3 == 0 else U.random_ctrl(rng)
     if k % 2 == 0:
         ctrl0["op_mode"] = rng.choice([0, 2, 2, 1, 3])
